@@ -32,11 +32,11 @@ CLAIMED = {
         note=S_NOTE, technique="translation validation: symbolic ONNX semantics of M and optimize(M), z3 equivalence for all inputs, onnxruntime replay"),
     "C04": dict(
         category="translation_validation", design_ref="§5 C04", engine="S",
-        text="Same runs as C03 on a disjoint seed: the solver part decides equivalence over the override values of initializer-inputs (a folded default yields a counterexample v != default); totality (no exception), validity of the result (independent structural checker + onnx.checker, relative to the input) and signature preservation are side verdicts of the enumerated runs, labelled as such.",
+        text="Same runs as C03 on a disjoint seed: the solver part decides equivalence over the override values of initializer-inputs (a folded default yields a counterexample v != default); totality (no exception), validity of the result (independent structural checker + onnx.checker, relative to the input) and signature preservation are side verdicts of the enumerated runs, labelled as such. The value verdict also covers the overridable_defaults family (operands of shipped rewrite rules - Slice bounds, Unsqueeze axes, Reshape targets, Expand shapes - as overridable inputs); control-flow hosts include branches whose output is one of their own initializers.",
         note=S_NOTE + " Side verdicts are enumeration, not solver verdicts.", technique="translation validation with symbolic override values for initializer-inputs; structural side verdicts per run"),
     "C05": dict(
         category="translation_validation", design_ref="§5 C05", engine="S",
-        text="For every rule exported by rules.common (all 53 encoded; every rule fires on some host except dropout_inference_rule, which is shown vacuous from the installed schemas at every run) and every host of the rule's families (instances and near-misses over operand ranks 0-3, [1]/[1,1] constants, inverted/eps/almost-1 constants, three constant forms incl. overridable graph inputs, attribute variants, zero-size dims, rank-raising one-element constants, ScatterND reductions, sequence ops at opsets 13/17/18): the single rule is applied with the real RewriteRuleSet; where it fires symonnx interprets host and result and z3 decides equality of all outputs for ALL input values (forward-error bound for recomputed float constants); validity for the declared opset is part of the schema-keyed interpretation. Symbolic-declaration leg: hosts of the families whose rules read declared shapes are re-declared in nine modes (shared / distinct / unnamed symbols, leading dim only, distinct symbols beside a static 1, anonymous value_info dims), the rule is applied once to the declared model and, where it fires, original and result are compared by z3 for every binding of <=4 symbols over {0,1,2,3,7}. Second layer (added): CrossHair/z3 side-condition lemmas on the CURRENT source of the rules' check/rewrite functions with constants, attributes, static dims and the runtime values of symbolic / anonymous dims as unbounded symbolic integers: TransposeTranspose (all permutation pairs, rank 2-3 quick, 4 thorough), TransposeIdentity, UnsqueezeUnsqueeze (all axes, rank 0..4), collapse_slice, SlicesSplit (found the odd-last-dim defect), MaterializeReshapeShape (found the [-1,0] allowzero defect), Expand-before-binary-op strategies 1-3 (ranks 0..2 of x, y; target rank 1..3); hosts now span every operator of _BROADCAST_BINARY_OPS with its attributes, Conv padding-attribute variants for the affine fusions, mixed-rank Min/Max constants; quick thinning is stratified by tag shape.",
+        text="For every rule exported by rules.common (all 53 encoded; every rule fires on some host except dropout_inference_rule, which is shown vacuous from the installed schemas at every run) and every host of the rule's families (instances and near-misses over operand ranks 0-3, [1]/[1,1] constants, inverted/eps/almost-1 constants, three constant forms incl. overridable graph inputs, attribute variants, zero-size dims, rank-raising one-element constants, ScatterND reductions, sequence ops at opsets 13/17/18): the single rule is applied with the real RewriteRuleSet; where it fires symonnx interprets host and result and z3 decides equality of all outputs for ALL input values (forward-error bound for recomputed float constants); validity for the declared opset is part of the schema-keyed interpretation. Symbolic-declaration leg: hosts of the families whose rules read declared shapes are re-declared in nine modes (shared / distinct / unnamed symbols, leading dim only, distinct symbols beside a static 1, anonymous value_info dims), the rule is applied once to the declared model and, where it fires, original and result are compared by z3 for every binding of <=4 symbols over {0,1,2,3,7}. Second layer (added): CrossHair/z3 side-condition lemmas on the CURRENT source of the rules' check/rewrite functions with constants, attributes, static dims and the runtime values of symbolic / anonymous dims as unbounded symbolic integers: TransposeTranspose (all permutation pairs, rank 2-3 quick, 4 thorough), TransposeIdentity, UnsqueezeUnsqueeze (all axes, rank 0..4), collapse_slice, SlicesSplit (found the odd-last-dim defect), MaterializeReshapeShape (found the [-1,0] allowzero defect), Expand-before-binary-op strategies 1-3 (ranks 0..2 of x, y; target rank 1..3); hosts now span every operator of _BROADCAST_BINARY_OPS with its attributes, Conv padding-attribute variants for the affine fusions, mixed-rank Min/Max constants; quick thinning is stratified by tag shape. Further lemmas: reshape-matmul-reshape shape condition (found the contraction-dim defect), fill_pads_with_axes, auto_pad SAME pads for every input size; hosts: matmul_add_to_gemm over degenerate / coinciding sizes and every bias shape.",
         note=S_NOTE + " Bindings of the symbolic leg are enumerated, values under each binding decided by z3. rules.fusion (sqrt/trig identities) is outside the claim; QLinearConv is encoded for concrete scales only; float16 rounding is not modelled (floats are reals).",
         technique="translation validation per rule and host: symbolic ONNX semantics, z3 equivalence for all inputs, onnxruntime replay; CrossHair+z3 integer side-condition lemmas on the rules' real check/rewrite functions"),
     "C09": dict(
@@ -51,7 +51,7 @@ CLAIMED = {
         technique="symbolic execution (CrossHair+z3) of the real matcher against declarative instance specs, vacuity twins"),
     "C07": dict(
         category="translation_validation", design_ref="§5 C07", engine="S",
-        text="Seventeen generated rules (re-emission via a different op, operand swap, double transpose/negation, x*1 - also with a replacement that returns the pattern input itself -, two-output and two-root patterns with consumers between the matched nodes, replacement with a new initializer, as_function, remove_nodes=False, a rule with per-graph state kept through the visitor hooks) whose p==r is itself proved on the k=1 host; hosts with k<=3 separated/adjacent instances, matched outputs that are graph outputs, intermediates with extra consumers, instances inside If bodies (depth<=2), Loop bodies, model-local functions and If branches of functions, one value bound to several pattern inputs, initializer name clashes; random hosts (6 quick / 150 thorough per rule). symonnx + z3 decide [[M]] == [[rewrite(M,[rule])]] for all inputs; validity, signature, unmatched-node multiset and minimum application count are side verdicts. Plus a CrossHair/z3 inductive-step lemma on the as_function overload allocator (_get_new_overload) from an arbitrary set of existing functions (7-key table, gaps included).",
+        text="Seventeen generated rules (re-emission via a different op, operand swap, double transpose/negation, x*1 - also with a replacement that returns the pattern input itself -, two-output and two-root patterns with consumers between the matched nodes, replacement with a new initializer, as_function, remove_nodes=False, a rule with per-graph state kept through the visitor hooks) whose p==r is itself proved on the k=1 host; hosts with k<=3 separated/adjacent instances, matched outputs that are graph outputs, intermediates with extra consumers, instances inside If bodies (depth<=2), Loop bodies, model-local functions and If branches of functions, one value bound to several pattern inputs, initializer name clashes; random hosts (6 quick / 150 thorough per rule). symonnx + z3 decide [[M]] == [[rewrite(M,[rule])]] for all inputs; validity, signature, unmatched-node multiset and minimum application count are side verdicts. Plus a CrossHair/z3 inductive-step lemma on the as_function overload allocator (_get_new_overload) from an arbitrary set of existing functions (7-key table, gaps included). Rules added: a two-output pattern returned outer-first (several outputs below one output node) and an as_function rule applied through commute=True.",
         note=S_NOTE + " Rules must be terminating (a replacement containing its own pattern makes the rewriter loop: property of the rule). Metadata merging unchecked.",
         technique="translation validation of generated rewrite rules on generated hosts: symbolic ONNX semantics, z3 equivalence, structural side verdicts; CrossHair+z3 inductive-step lemma on the overload allocator"),
     "C10": dict(
